@@ -129,6 +129,29 @@ func checkC06(p *Prog, r *Report) {
 		r.info("E5.on-stack-discipline", "no on-stack set", p.pos(visit.Pos()), fnName(visit), "the recursive visit has no captured map whose membership test reports a cycle: the on-stack clauses do not apply to this implementation")
 		r.okTrivial("E5.on-stack-discipline", "not applicable to this implementation", p.pos(visit.Pos()), fnName(visit), "no on-stack set")
 	}
+	// (0) the search state belongs to one run: the graph gains edges between runs, so a verdict of an earlier run
+	// ("finished: no cycle below") does not hold for a later one
+	for name, m := range map[string]ssa.Value{"finished": finished, "on-stack": onStack} {
+		fv, ok := m.(*ssa.FreeVar)
+		if !ok {
+			continue
+		}
+		cell := freeVarBinding(fv)
+		fresh, n := true, 0
+		if a, ok := cell.(*ssa.Alloc); ok {
+			for _, sv := range storesTo(a) {
+				n++
+				if mk, isMk := sv.(*ssa.MakeMap); !isMk || mk.Parent() != check {
+					fresh = false
+				}
+			}
+		} else if _, isMk := cell.(*ssa.MakeMap); isMk {
+			n = 1
+		} else {
+			fresh = false
+		}
+		r.check(fresh && n > 0, "E7.per-run-search-state", "the "+name+" set is created by the run that uses it", p.pos(check.Pos()), fnName(check), "allocated with make() inside Check", "the "+name+" set of the cycle search outlives one run of Check (it comes from a field or another longer-lived value): dependencies are still being resolved between runs, so a target cleared in an earlier run can since have gained the edge that closes a cycle, and every later run skips it")
+	}
 	target := visit.Params[0]
 	// (1)
 	rule := "E5.dfs-roots"
@@ -268,7 +291,18 @@ func checkC06(p *Prog, r *Report) {
 			ok := false
 			// recursive result passed through / prepended
 			rec, fresh, usesTarget := false, false, false
+			foreign := false
 			for x := range backSlice(v, SliceOpts{}) {
+				// anything read from state shared between frames (a captured path stack, a field) is not "this target
+				// plus what the callee returned"; the captured function value used for the recursion itself is fine
+				if fv, isFV := x.(*ssa.FreeVar); isFV {
+					if pt, isP := fv.Type().(*types.Pointer); !isP || !isFuncType(pt.Elem()) {
+						foreign = true
+					}
+				}
+				if _, isG := x.(*ssa.Global); isG {
+					foreign = true
+				}
 				if c, isC := x.(*ssa.Call); isC && resolveCalleeDeep(&c.Call) == visit {
 					rec = true
 				}
@@ -293,6 +327,11 @@ func checkC06(p *Prog, r *Report) {
 			case rec:
 				ok = true // cycle, or append([]{target}, cycle...)
 			}
+			if foreign {
+				// a cycle read off a captured path stack: acceptable exactly when the stack is kept in step with the
+				// recursion (every nil-cycle return after the push passes a pop)
+				ok = pathStackBalanced(visit, target)
+			}
 			if !ok {
 				badC++
 			}
@@ -312,6 +351,65 @@ func checkC06(p *Prog, r *Report) {
 		})
 		r.check(recOK, rule, "the search follows edges of the current target", p.pos(visit.Pos()), fnName(visit), "visit recurses on elements of target.Dependencies()", "the recursion does not follow the dependencies of the target being visited: a reported path is not a dependency chain")
 	}
+}
+
+// pathStackBalanced: visit pushes its target on a captured slice (store of append(load S, target) into S); every
+// return with a nil cycle that is reachable from the push passes a store into S of a re-slice of S (the pop).
+func pathStackBalanced(visit *ssa.Function, target ssa.Value) bool {
+	var pushes []*ssa.Store
+	isPop := func(i ssa.Instruction) bool { return false }
+	eachInstr(visit, false, func(_ *ssa.Function, i ssa.Instruction) {
+		st, ok := i.(*ssa.Store)
+		if !ok {
+			return
+		}
+		fv, ok := st.Addr.(*ssa.FreeVar)
+		if !ok {
+			return
+		}
+		if c, ok := st.Val.(*ssa.Call); ok {
+			if b, ok := c.Call.Value.(*ssa.Builtin); ok && b.Name() == "append" {
+				for _, a := range c.Call.Args[1:] {
+					if derivesFromValue(a, target) {
+						pushes = append(pushes, st)
+					}
+				}
+			}
+		}
+		_ = fv
+	})
+	if len(pushes) == 0 {
+		return false
+	}
+	cell := pushes[0].Addr
+	isPop = func(i ssa.Instruction) bool {
+		st, ok := i.(*ssa.Store)
+		if !ok || st.Addr != cell {
+			return false
+		}
+		sl, ok := st.Val.(*ssa.Slice)
+		if !ok {
+			return false
+		}
+		ld, ok := sl.X.(*ssa.UnOp)
+		return ok && ld.X == cell
+	}
+	for _, push := range pushes {
+		for _, ret := range returnsOf(visit) {
+			if len(ret.Results) == 0 || !isNilConst(unspill(ret.Results[0])) {
+				continue
+			}
+			if existsPath(visit, push, ret, isPop) {
+				return false
+			}
+		}
+	}
+	return true
+}
+
+func isFuncType(t types.Type) bool {
+	_, ok := t.Underlying().(*types.Signature)
+	return ok
 }
 
 // freeVarOrSame: does map value m (seen in function `in`) denote the same captured variable as fv (a FreeVar of closure g)?
@@ -465,6 +563,23 @@ func checkC25(p *Prog, r *Report) {
 		for _, k := range []string{"subincludes", "named targets", "targets of a named ... pattern", "tests of kept targets"} {
 			r.check(prov[k], rule, "root: "+k, p.pos(ttr.Pos()), fnName(ttr), "an addTarget call takes such a target", "no addTarget call for "+k+": they and what they depend on can be proposed for removal")
 		}
+	}
+	// (2b) the public dependencies of a test: a hidden sub-target of the same rule is looked through, at any depth
+	if pd := p.Fn("gc", "publicDependencies"); pd == nil {
+		r.unresolved("E5.same-rule-lookthrough", "gc.publicDependencies")
+	} else {
+		nRec, okRec := 0, 0
+		for _, ci := range callsInFn(pd, pd) {
+			nRec++
+			for _, f := range factsAt(ci) {
+				if bo, ok := f.V.(*ssa.BinOp); ok && bo.Op == token.EQL && f.Val {
+					if tagsOf(bo.X, SliceOpts{})["call:(core.BuildLabel).Parent"] && tagsOf(bo.Y, SliceOpts{})["call:(core.BuildLabel).Parent"] {
+						okRec++
+					}
+				}
+			}
+		}
+		r.check(nRec > 0 && nRec == okRec, "E5.same-rule-lookthrough", "publicDependencies looks through a dependency exactly when both ends have the same parent rule", p.pos(pd.Pos()), fnName(pd), itoa(nRec)+" recursion(s), each under dep.Label.Parent() == target.Label.Parent()", "publicDependencies decides whether a dependency is an internal sub-target by comparing its parent with the current target itself: inside the recursion the current target is hidden too, so a second level of hidden sub-targets is returned as a public dependency, is not in the keep set, and the test of a kept library is proposed for removal")
 	}
 	// (3) + (4)
 	rule = "E5.only-unkept-proposed"
